@@ -242,3 +242,40 @@ M("C12", "gram-body-excludes-quote", "c2profile.lark", "STRING: \"\\\"\" /(.|\\n
 M("C12", "gram-body-ascii-only", "c2profile.lark", "STRING: \"\\\"\" /(.|\\n)*?/ /(?<!\\\\)(\\\\\\\\)*?/ \"\\\"\"", "STRING: \"\\\"\" /[\\x00-\\x7f]*?/ /(?<!\\\\)(\\\\\\\\)*?/ \"\\\"\"", "C12.R4")
 # a class the syntax-tree inspection does not understand: undecided, never violated
 T("C12", "twin-gram-undecided-dot-or-space", "c2profile.lark", "STRING: \"\\\"\" /(.|\\n)*?/ /(?<!\\\\)(\\\\\\\\)*?/ \"\\\"\"", "STRING: \"\\\"\" /(.|\\s)*?/ /(?<!\\\\)(\\\\\\\\)*?/ \"\\\"\"")
+
+# ---------------------------------------------------------------------------------------------- wave 2
+# hex escapes: a constant mask / modulus over the parsed digits is judged by the known-bits lemma L7 (all four digits parsed
+# and reduced to the low byte is the same decoder; a mask that keeps a higher bit or a modulus other than 256 is not)
+U_FOUR = ("                    if not it.has_next(4):\n"
+          "                        raise ValueError(\"not enough remaining chars for \\\\uXXXX\")\n"
+          "                    hexstr = \"\".join(it.next(4))\n"
+          "                    buffer.append(int(hexstr, 16) %s)\n")
+T("C12", "twin-dec-u-four-digits-and-ff", F, U_BRANCH, U_FOUR % "& 0xFF")
+T("C12", "twin-dec-u-four-digits-mod-256", F, U_BRANCH, U_FOUR % "% 0x100")
+T("C12", "twin-dec-u-four-digits-mask-chain", F, U_BRANCH, U_FOUR.replace("int(hexstr, 16) %s", "0x0FFF & int(hexstr, 16) & 0xF0FF"))
+T("C12", "twin-dec-x-masked-ff", F, X_BRANCH, X_BRANCH.replace("int(hexstr, 16)", "int(hexstr, 16) & 0xFF"))
+T("C12", "twin-dec-x-mod-256", F, X_BRANCH, X_BRANCH.replace("int(hexstr, 16)", "int(hexstr, 16) % 256"))
+M("C12", "dec-u-four-digits-and-1ff", F, U_BRANCH, U_FOUR % "& 0x1FF", "C12.R2")
+M("C12", "dec-u-four-digits-and-7f", F, U_BRANCH, U_FOUR % "& 0x7F", "C12.R2")
+M("C12", "dec-u-four-digits-mod-512", F, U_BRANCH, U_FOUR % "% 512", "C12.R2")
+M("C12", "dec-u-high-pair-masked", F, U_BRANCH, U_BRANCH.replace("                    _ = it.next(2)\n", "").replace(
+    "                    buffer.append(int(hexstr, 16))\n", "                    it.next(2)\n                    buffer.append(int(hexstr, 16) & 0xFF)\n"), "C12.R2")
+M("C12", "dec-x-mod-255", F, X_BRANCH, X_BRANCH.replace("int(hexstr, 16)", "int(hexstr, 16) % 0xFF"), "C12.R2")
+M("C12", "dec-x-mask-7f", F, X_BRANCH, X_BRANCH.replace("int(hexstr, 16)", "int(hexstr, 16) & 0x7F"), "C12.R2")
+
+# encoder: the unicode_escape codec over a latin-1 decoding is a second byte-wise escaper (lemma L1b); it leaves the single
+# quote unescaped, so it is lossless exactly when no rewrite of backslash + X with X a plain token follows (lemma L2b)
+CODEC = "value.decode(\"latin-1\").encode(\"unicode_escape\").decode(\"ascii\")"
+ENC_HEAD = ("    if isinstance(value, bytes):\n"
+            "        # we prepend a double quote to the bytes so repr() always escapes using single quote and strip it afterwards\n" + ESCAPER)
+T("C12", "twin-enc-codec-escaper-own-pipeline", F, ENC_HEAD, "    if isinstance(value, bytes):\n        return '\"' + " + CODEC + ".replace('\"', '\\\\\"') + '\"'\n")
+T("C12", "twin-enc-codec-escaper-str-ctor", F, ENC_HEAD,
+  "    if isinstance(value, bytes):\n        text = str(value, \"iso-8859-1\")\n        text = str(text.encode(\"unicode-escape\"), \"ascii\")\n        return '\"' + text.replace('\"', '\\\\\"') + '\"'\n")
+M("C12", "enc-codec-escaper-unescape-in-own-pipeline", F, ENC_HEAD,
+  "    if isinstance(value, bytes):\n        text = str(value, \"iso-8859-1\")\n        text = str(text.encode(\"unicode-escape\"), \"ascii\")\n"
+  "        return '\"' + text.replace(\"\\\\'\", \"'\").replace('\"', '\\\\\"') + '\"'\n", "C12.R1")
+M("C12", "enc-codec-escaper-ascii-decode", F, ENC_HEAD, "    if isinstance(value, bytes):\n        return '\"' + " + CODEC.replace("latin-1", "ascii") + ".replace('\"', '\\\\\"') + '\"'\n", "C12.R1")
+M("C12", "enc-codec-escaper-sliced", F, ENC_HEAD, "    if isinstance(value, bytes):\n        return '\"' + " + CODEC + "[1:-1].replace('\"', '\\\\\"') + '\"'\n", "C12.R1")
+# the same kind with the repr escaper: an un-escape of backslash + letter splits an escaped backslash followed by that letter
+M("C12", "enc-repr-tab-unescaped", F, SQREP, SQREP + "        value = value.replace(\"\\\\t\", \"\\t\")\n", "C12.R1")
+M("C12", "enc-repr-hex-prefix-rewritten", F, ESCAPER, "        value = repr(b'\"' + value)[3:-1].replace(\"\\\\x\", \"%\")\n", "C12.R1")
